@@ -170,6 +170,20 @@ def run(ck):
               "a reference is pushed inside a loop that does not pass through the work stack's pop (the enumeration of a node's children): references no longer line up with the child keys they are stored with", f.loc(inner[0]) if inner else f.loc())
     # the frozen hash reflects every in-place change only if the changed node is detached from its persistent original
     from .c03 import marked_rules
+    # migrating takes the tree by shared reference and leaves it as it was: the child links of the nodes it walks are shared
+    # (Arc) with the source tree whenever the source is in memory or cached, so migrate never takes a write guard on a child
+    # link - writing the new store's reference through it makes the source unreadable with its own loader
+    nm = 0
+    for p0 in sorted(c.paths()):
+        if not re.search(r"low_level::Node::migrate(::\{closure#\d+\})*$", p0):
+            continue
+        for b in c.get_all(p0):
+            f = Fn(b)
+            nm += 1
+            wg = [(bi, t) for (bi, t) in f.calls(r"low_level::Link::<V>::borrow_mut$|low_level::Link<.*>::borrow_mut$") if any("CachedRef<" in g_ and "Node" in g_ for g_ in (t["f"].get("gargs") or []))]
+            ck.ob("WHO", p0, "migrate-does-not-write-through-shared-child-links", not wg,
+                  "no write guard on a child link" if not wg else "a write guard is taken on a child link that is shared with the source tree: after migrating a cached or in-memory state the source's children point into the NEW store", f.loc(wg[0][0]) if wg else f.loc(), nontrivial=False)
+    ck.floor("WHO", "bodies of Node::migrate", nm, 2)
     marked_rules(ck)
 
     # canonical stems: an odd-length stem keeps only the high nibble of its last byte (the padding nibble is zero); the stem
